@@ -86,7 +86,7 @@ PROPS = {
         {
             "never two records with one address; grows only for new addresses": "theorem (full, every reachable state — any history of public calls, inputs and RNG draws): C09H.one_record_per_address_always, C09H.address_determines_record; per update, every RNG draw: one_record_per_address, known_address_keeps_addresses, grows_only_for_new_addresses",
             "identity replaced only by a conflict winner, reported as Rename": "theorem (full): replaced_only_by_conflict_winner, rename_is_notified",
-            "own address never active": "theorem (full at the Members layer + apply_many normalisation): own_address_never_active, C19.own_address_updates_become_down",
+            "own address never active": "theorem (full, every state reachable by any history of public calls with change_identity used as documented — same address, or an address without an active record): C09H.own_address_never_active_always, C09H.own_address_never_active_step (invariant OwnInv through every model function, Proofs/OwnInv.lean); per update: own_address_never_active, C19.own_address_updates_become_down",
             "data from own identity/address rejected before any change": "theorem (full): data_from_own_address_is_rejected",
             "payload of a superseded or Down sender discarded; never falls back to a superseded identity": "partial: follows from replaced_only_by_conflict_winner per step; whole-history statement checked by search and correspondence only",
         },
@@ -123,8 +123,9 @@ PROPS = {
         {
             "periodic announce to down members never targets the own address": "theorem (full, any RNG draws): announce_to_down_never_own_address - false before the fix: commit for finding F5",
             "gossip / periodic announce / broadcast targets are active listed members, hence not the own address": "theorem (full given the invariant): chosen_targets_are_active_members, chosen_targets_not_own_address",
-            "invariant: no active record bears the own address": "theorem (full at the Members layer): own_inactive_preserved, own_address_updates_become_down",
-            "probes, replies": "partial: probe target comes from Members::next (active records), replies go to the sender whose address was checked (C09.data_from_own_address_is_rejected); composition checked by search and correspondence",
+            "invariant: no active record bears the own address": "theorem (full, every reachable state under documented change_identity use): C19H.chosen_targets_never_own_address_always discharges the hypothesis of chosen_targets_not_own_address in every such state; per update: own_inactive_preserved, own_address_updates_become_down",
+            "probes": "theorem (full, every reachable state, every reshuffle): C19H.probe_target_never_own_address_always, C19H.probed_member_never_own_address_always",
+            "replies": "theorem for the rejection (C19H.no_reply_to_own_address: data from the own address is refused before anything happens); partial for the rest: that each reply goes to the checked sender is read off the reply table (reactToMessage) and checked by search and correspondence, there is no effect-level whole-history theorem",
         },
         RULE_HIST + "search: destination of every send compared with the instance's address on histories that teach it older/newer identities of its own address, all periodic tasks enabled.",
         ["relays towards a target named by a peer (IndirectPing, ForwardedAck) and explicit announce(dst) are outside the guarantee",
